@@ -385,6 +385,15 @@ func TestSettle(t *testing.T) {
 		}
 		res.Add("graph_states", len(g.Nodes))
 		res.Add("graph_edges", g.NEdges)
+		// every edge is executed after its shortest path and followed by a shortest continuation to a state in which the
+		// money can be judged (the honest party / both parties have settled): what a step costs shows at settlement
+		compl := g.CompletionTo(func(nd *tla.Node) bool {
+			paid := nd.State["paid"].(tla.Rec)
+			if cfg.Adversary {
+				return paid["A"].(bool)
+			}
+			return paid["A"].(bool) && paid["B"].(bool)
+		})
 		for _, nd := range g.Nodes {
 			path := g.PathTo(nd)
 			for _, e := range nd.Out {
@@ -394,7 +403,7 @@ func TestSettle(t *testing.T) {
 				}
 				e.MarkHit()
 				var steps []wStepS
-				for _, pe := range append(append([]*tla.Edge{}, path...), e) {
+				for _, pe := range append(append(append([]*tla.Edge{}, path...), e), compl.From(e.Dst)...) {
 					steps = append(steps, wStepS{pe.Act, pe.Src.State, pe.Dst.State})
 				}
 				res.Add("behaviours", 1)
